@@ -84,8 +84,10 @@ func (s *Modifier) ModifyResponse(res *http.Response) error {
 	reqpth := filepath.Clean(res.Request.URL.Path)
 	fpth := filepath.Join(s.rootPath, reqpth)
 
-	if _, ok := s.explicitPaths[reqpth]; ok {
-		fpth = filepath.Join(s.rootPath, s.explicitPaths[reqpth])
+	if mapped, ok := s.explicitPaths[reqpth]; ok {
+		// Clean the mapped path as an absolute path so that it stays rooted at
+		// s.rootPath even if it contains dot segments.
+		fpth = filepath.Join(s.rootPath, filepath.Clean(string(filepath.Separator)+mapped))
 	}
 
 	f, err := os.Open(fpth)
